@@ -711,7 +711,63 @@ func (g *gen) stmt(depth int, rets []*Type, allowReturn bool) stmt {
 	arrays := g.varsOf(func(v variable) bool { return !v.ro && v.t.Kind == KArr })
 	structs := g.varsOf(func(v variable) bool { return !v.ro && v.t.Kind == KStruct })
 	for {
-		switch g.r.Intn(16) {
+		switch g.r.Intn(17) {
+		case 16: // a bare literal stored into a variable, an array element or a struct field
+			type target struct {
+				src string
+				t   *Type
+				set func(en *env, v Val)
+			}
+			var ts []target
+			for _, v := range assignable {
+				if g.cfg.NoConst {
+					break // a variable holding a literal is a constant: what follows is folded (C12)
+				}
+				n := v.name
+				ts = append(ts, target{n, v.t, func(en *env, x Val) { en.get(n).I = x.I }})
+			}
+			for _, a := range arrays {
+				if !a.t.Elem.Scalar() {
+					continue
+				}
+				n, i := a.name, g.r.Intn(a.t.N)
+				for k := 0; k < 2; k++ { // arrays weigh double: element stores are the aliasing-sensitive ones
+					ts = append(ts, target{fmt.Sprintf("%s[%d]", n, i), a.t.Elem, func(en *env, x Val) { en.get(n).E[i] = x }})
+				}
+			}
+			for _, sv := range structs {
+				for fi, f := range sv.t.Fields {
+					if f.T.Scalar() {
+						n, idx := sv.name, fi
+						ts = append(ts, target{n + "." + f.Name, f.T, func(en *env, x Val) { en.get(n).E[idx] = x }})
+					}
+				}
+			}
+			if len(ts) == 0 {
+				continue
+			}
+			tg := vrt.Pick(g.r, ts)
+			var l expr
+			if tg.t.Kind == KBool {
+				b := g.r.Intn(2)
+				l = expr{t: Bool, src: []string{"false", "true"}[b], eval: func(*env) Val { return Val{T: Bool, I: big.NewInt(int64(b))} }}
+			} else {
+				l = g.lit(tg.t)
+				if g.r.Intn(3) == 0 { // a value with the element's top (non-sign) bit set, in hex
+					bits := tg.t.Bits
+					if tg.t.Kind == KInt {
+						bits--
+					}
+					if bits >= 1 && bits <= 62 {
+						v := new(big.Int).Lsh(big.NewInt(1), uint(bits-1))
+						v.Or(v, g.r.Big(bits))
+						l = litExpr(tg.t, v)
+						l.src = "0x" + v.Text(16)
+					}
+				}
+			}
+			g.feat["literal-store"] = true
+			return stmt{lines: []string{tg.src + " = " + l.src}, exec: func(en *env) bool { tg.set(en, l.eval(en)); return false }}
 		case 0, 1: // var x T = e
 			t := g.scalarType()
 			e := g.expr(t, g.cfg.MaxDepth)
